@@ -23,10 +23,12 @@ for d in sorted(glob.glob(V+"/seeded/*")):
     files=sorted({l[6:] for l in patch.splitlines() if l.startswith("+++ b/")})
     rows.append(f"| {sid} | {', '.join(files)} | {needs} | {rule} | {w} |")
 tab="| id | file(s) touched | needs, to manifest | caught by | rule existed before the change was seen? |\n|---|---|---|---|---|\n"+"\n".join(rows)
-r1=[x for x in rows if "-r2m" not in x.split("|")[1]]
+r1=[x for x in rows if not any(t in x.split("|")[1] for t in ("-r2m","-r3m","-r4m"))]
+r3=[x for x in rows if "-r3m" in x.split("|")[1]]
+r4=[x for x in rows if "-r4m" in x.split("|")[1]]
 r2=[x for x in rows if "-r2m" in x.split("|")[1]]
 def cnt(rs,w): return sum(1 for x in rs if x.rstrip().endswith("| "+w+" |"))
-tab+=f"\n\nTotals: {len(rows)} confirmed changes; {nb} caught by rules that existed before the change was seen, {na} caught after a rule was added or extended because of it, {nm} missed. Round 1 ({len(r1)} changes): {cnt(r1,'before')} before / {cnt(r1,'after')} after / {cnt(r1,'miss')} missed. Round 2 ({len(r2)} changes, produced when the round-1 strengthening was already in place): {cnt(r2,'before')} before / {cnt(r2,'after')} after / {cnt(r2,'miss')} missed."
+tab+=f"\n\nTotals: {len(rows)} confirmed changes; {nb} caught by rules that existed before the change was seen, {na} caught after a rule was added or extended because of it, {nm} missed. Round 1 ({len(r1)} changes): {cnt(r1,'before')} before / {cnt(r1,'after')} after / {cnt(r1,'miss')} missed. Round 2 ({len(r2)} changes, produced when the round-1 strengthening was already in place): {cnt(r2,'before')} before / {cnt(r2,'after')} after / {cnt(r2,'miss')} missed. Round 3 ({len(r3)} changes): {cnt(r3,'before')} before / {cnt(r3,'after')} after / {cnt(r3,'miss')} missed. Round 4 ({len(r4)} changes): {cnt(r4,'before')} before / {cnt(r4,'after')} after / {cnt(r4,'miss')} missed."
 rules=subprocess.run(["python3",V+"/tools/gen_design_rules.py"],capture_output=True,text=True,check=True).stdout
 nmut=len([f for f in glob.glob(V+"/selftest/*/*.json") if "/benign-" not in f])
 head=open(V+"/design/00-head.md").read().replace("Sources of the 57 mutants",f"Sources of the {nmut} mutants")
